@@ -4,7 +4,10 @@ use byteorder::{BigEndian, WriteBytesExt};
 use log::debug;
 use num_enum::{FromPrimitive, IntoPrimitive, TryFromPrimitive};
 
-use crate::{errors::Result, parsing_reader::BufReadParsing};
+use crate::{
+    errors::{ensure, Result},
+    parsing_reader::BufReadParsing,
+};
 
 /// Represents the packet length.
 #[derive(derive_more::Debug, PartialEq, Eq, Clone, Copy)]
@@ -347,6 +350,12 @@ impl PacketHeaderVersion {
         let tag: u8 = tag.into();
         match self {
             PacketHeaderVersion::Old => {
+                // the legacy format only has four bits for the packet type id
+                ensure!(
+                    tag < 16,
+                    "tag is not compatible with old packet headers: {}",
+                    tag
+                );
                 if len < 256 {
                     // one octet
                     writer.write_u8(0b1000_0000 | (tag << 2))?;
